@@ -264,6 +264,8 @@ def suite_connect(rng: random.Random, tier: str) -> Suite:
                     r = "ok"
                 except ScenarioError:
                     r = "ScenarioError"
+                except Exception as e:  # noqa: BLE001   any other exception is an observation, not a harness crash
+                    r = type(e).__name__
             lines = [f"w.new {int(cache)}"] + [f"w.start hybrid {s_list(p)} {MODEL_DESC_LINE}" for p in PLACEMENTS]
             lines.append(f"w.connect {a} 0 {b} 0 1 {AID[sa]} {AID[da]} {int(asyncr)} {ts} {int(weak)} " +
                          (f"1 {AID[sa]} 5" if init else "0"))
